@@ -402,7 +402,7 @@ def convQV (tol : Rat) (hist : List (QV × QV)) : Bool :=
   | some h => convRat tol h
   | none => false
 
-/-- `c13.opt pts clamps links pos lnk G J maxit:tol sched back`
+/-- `c13.opt pts clamps links pos lnk G J maxit:tol sched back` (`d:d` = the default arguments of `optimize`)
     → `final=[…] prm=[…] raised=<site|none> fuel=<0|1> hist=[qi:qf,…] steps=[it:clamp:flag:gi:gf,…] back=<[…]|err>` -/
 def handleOpt (args : List String) : Option String :=
   match args with
@@ -415,6 +415,7 @@ def handleOpt (args : List String) : Option String :=
       let g ← parseG? g
       let jt ← parseJ? jt
       let (maxIter, tol) ← match drv.splitOn ":" with
+        | ["d", "d"] => some (defaultMaxIter, defaultTol)  -- `optimize()` without arguments
         | [m, t] => do some ((← parseNat? m), (← parseRat? t))
         | _ => none
       let iters ← (if sched = "-" then some [] else (sched.splitOn "|").mapM parseIter?)
